@@ -120,13 +120,34 @@ func runC14(o *opts) (*summary, error) {
 	put := func(r M, class string) { w.put(r, class, fmt.Sprintf("%s/%v/%v", zone, r["type"], r["k"])) }
 
 	// ---- zone dependent: date, date-time ---------------------------------------------------------
+	// (a third of the dates fall on days on which this zone changes its offset - among them the days without a midnight)
+	pool := transitionDays()
+	zday := func() (int, int, int) {
+		if len(pool) > 0 && rng.Intn(3) == 0 {
+			d := pool[rng.Intn(len(pool))]
+			return d[0], d[1], d[2]
+		}
+		return g.ymd()
+	}
 	for i := 0; i < n; i++ {
-		y, m, d := g.ymd()
+		y, m, d := zday()
 		v := types.ToDate(y, time.Month(m), d)
 		if rng.Intn(8) == 0 {
 			v = types.Date{}
 		}
 		put(jsonRT("date", zone, projDate(v), v, func() any { return new(types.Date) }, func(x any) any { return projDate(x.(types.Date)) }), "json-date")
+	}
+	// cards (their dates go through the text parser) and the text form of dates, per zone
+	for i := 0; i < n/2; i++ {
+		fy, fm, fd := zday()
+		ty, tm, td := zday()
+		c := types.Card{CardNumber: g.u32(), From: types.ToDate(fy, time.Month(fm), fd), To: types.ToDate(ty, time.Month(tm), td), Doors: map[uint8]uint8{1: 1, 2: 0, 3: 29, 4: 1}, PIN: types.PIN(g.pin())}
+		put(jsonRT("card", zone, cardSem(c), c, func() any { return new(types.Card) }, func(x any) any { return cardSem(x.(types.Card)) }), "json-card-zoned")
+	}
+	for i := 0; i < n/2; i++ {
+		y, m, d := zday()
+		s := fmt.Sprintf("%04d-%02d-%02d", y, m, d)
+		put(textEv("date", "ParseDate", s, func() (any, error) { v, err := types.ParseDate(s); return projDate(v), err }), "text-date-zoned")
 	}
 	for i := 0; i < 3*n; i++ {
 		// instants across 1850..2100 so that numeric zone abbreviations such as -03 and +0545 occur
